@@ -94,6 +94,59 @@ def split_ops(line):
     return int(K), int(D), ops
 
 
+BIG = [0, 1, 5, 2**31 - 2, 2**31 - 1, 2**31, 2**31 + 1, 2**31 + 10, 2**32 - 1, 2**32, 2**32 + 7, 2**33 + 5, 2**40, 2**52 + 1,
+       2**62, 2**63 - 1, 2**63, 2**63 + 12, 2**64 - 3, 2**64 - 2]
+
+
+def map_coords(line, f):
+    """apply the coordinate renaming f to every coordinate of a case line (ops U, S, T carry coordinates)"""
+    t = line.split(); out = t[:3]; p = 3
+    while p < len(t):
+        o = t[p]
+        if o == "U": out += [o, t[p + 1], str(f(int(t[p + 2])))]; p += 3
+        elif o in ("S", "T"):
+            k = int(t[p + 2]); out += [o, t[p + 1], t[p + 2]] + [str(f(int(x))) for x in t[p + 3:p + 3 + k]]; p += 3 + k
+        elif o == "P": out += t[p:p + 4]; p += 4
+        elif o in ("X", "Z"): out += t[p:p + 2]; p += 2
+        else: out += t[p:p + 3]; p += 3
+    return " ".join(out)
+
+
+def map_output(res, f):
+    parts = res.split(" ; ")
+    return " ; ".join([parts[0]] + [" ".join(["V"] + [str(f(int(x))) for x in q.split()[1:]]) for q in parts[1:]])
+
+
+def big_stream(c, exe, n):
+    """histories over huge coordinates: SpVecGF2 only compares coordinates, so a strictly increasing renaming of the
+    coordinates must commute with every operation; the model runs on the small coordinates, the implementation on the
+    renamed ones (around 2^31, 2^32, 2^63, 2^64), and the model's answer is renamed before the comparison"""
+    small, fs = [], []
+    for _ in range(n):
+        K, D, ops = gen_history(c.rng, 25)
+        D = min(D, 12)
+        K, D, ops = K, D, [o for o in ops]
+        line = map_coords(case_line(K, D, ops), lambda x: x % D)
+        img = sorted(c.rng.sample(BIG, D))
+        small.append(line); fs.append(img)
+    big = [map_coords(l, lambda x, im=im: im[x]) for l, im in zip(small, fs)]
+    mo = lib.run_model("c17", small)
+    io = lib.run_lines([exe], big)
+    nb = 0
+    for l, b, im, m, i in zip(small, big, fs, mo, io):
+        c.count(b, nontrivial(l, m), bucket="big-coordinates")
+        want = map_output(m, lambda x, im=im: im[x]) if m.startswith("O") else m
+        if i != want and nb < 3:
+            nb += 1
+            d = dense_eval(b)
+            if i != d:
+                c.violation("SpVecGF2 history over large coordinates: implementation differs from the dense GF(2) computation (impl: %s | dense: %s)" % (i[:150], d[:150]),
+                            {"component": "c17", "case": b, "impl": i, "model_renamed": want, "dense_reference": d}, True)
+            else:
+                c.violation("correspondence c17 (model under a monotone renaming of coordinates vs SpVecGF2) no longer checks, implementation agrees with the dense reference",
+                            {"component": "c17", "theorem_or_correspondence": "correspondence c17/big: extracted run_dump renamed vs harness/c17.cpp", "case": b, "impl": i, "model": want}, False)
+
+
 def check(tier, seed):
     c = lib.Check(PID, tier, seed, THEOREMS)
     c.rule = ("random SpVecGF2 histories (2-5 vectors, dimension 1..400, <= %d operations; aliasing, self-assignment, "
@@ -117,6 +170,7 @@ def check(tier, seed):
         io = lib.run_lines([exe], cases)
         for i, cs in enumerate(cases):
             c.count(cs, nontrivial(cs, mo[i]), bucket="ops<=10" if int(cs.split()[2]) <= 10 else "ops>10")
+        big_stream(c, exe, 600 if tier == "quick" else 6000)
         bad = lib.diff_lines(cases, mo, io)
         c.extra["corpus_cases"] = ncorp
         c.extra["disagreements_checked"] = len(bad)
@@ -137,7 +191,7 @@ def check(tier, seed):
                             {"component": "c17", "theorem_or_correspondence": "correspondence c17: extracted run_dump vs harness/c17.cpp", "case": l2, "impl": i2, "model": m2}, False)
     return c.finish(
         assumptions=["histories never read a moved-from vector before it is reassigned (unspecified in the dense semantics)",
-                     "coordinates fit size_t; U = std::size_t instantiation only"],
+                     "coordinates fit size_t; U = std::size_t instantiation only", "large coordinates (up to 2^64-2) are run through the model under a strictly increasing renaming, which every operation commutes with (only order comparisons of coordinates are used)"],
         explanation="Theorem C17_histories_refine_dense proves the model equal to the dense computation for all histories; "
                     "this run ties the model to include/parmcb/spvecgf2.hpp by exact comparison of store contents and observer outputs.")
 
